@@ -315,7 +315,7 @@ fn enabled(w: &World, last: Option<usize>, advances_used: usize) -> Vec<(Action,
             }
         }
     }
-    if advances_used < w.max_advances || (w.freeze.load(Ordering::SeqCst) && !w.advances.is_empty() && out.is_empty()) {
+    if advances_used < w.max_advances || (w.freeze.load(Ordering::SeqCst) && !w.advances.is_empty() && out.is_empty() && w.tasks.iter().any(|t| t.fut.is_some() && !t.may_block)) {
         for (i, d) in w.advances.iter().enumerate() {
             out.push((Action::Advance(i), format!("advance:{}ms", d.as_millis())));
         }
